@@ -454,6 +454,14 @@ ADD_TEXT["C06"] = ADD_TEXT.get("C06", "") + (" Round 8: bus_client_policy_optimi
 ADD_TEXT["C13"] += (" 'Capacity freed by a release or disconnect becomes usable again' as theorems: removed_rule_frees_room (a successful RemoveMatch leaves exactly one rule fewer), "
                     "below_rules_limit_not_refused, answered_call_frees_slot (an answered call no longer counts against its caller), departure_frees_connection (a registered "
                     "connection that leaves makes the count of registered connections one smaller).")
+ADD_TEXT["C02"] += (" Round 8: the first clause - 'any message built through the public construction API serialises to bytes that are a valid D-Bus message' - is a theorem about the "
+                    "construction steps themselves, no longer only about their result: Model/Build.lean holds what the API calls make of the abstract message (pushTop: a completed top-level "
+                    "value goes to the end of the body, its type to the end of the signature, the SIGNATURE field is rewritten; setHdr; applyBuild) - the very functions the driver's "
+                    "interpreter of construction programs executes and the check compares byte for byte with the library's writer -, and pushTop_keeps_valid / build_step_keeps_valid / "
+                    "build_keeps_valid prove that every step, and every sequence of steps in any order, keeps a well-formed message well-formed under the API's preconditions (AppendOK: the "
+                    "value is well-formed where it will stand, the lengthened signature is a signature of at most 255 bytes, the message still fits the limits; EditOK for header calls, "
+                    "from C12); built_message_roundtrips: the built message serialises to bytes that parse back to exactly it. How a container value is assembled from open/append/close "
+                    "calls stays in the driver's interpreter (tied by the byte comparison), as does dbus_message_new_*'s choice of initial fields.")
 for _k, _v in ADD_TEXT.items():
     CHECKS[_k]["text"] = CHECKS[_k]["text"].rstrip() + _v
 for _k, _v in NEW_NOTE.items():
